@@ -91,6 +91,18 @@ V_C18(pst, r) == LET pre == Abs(pst)  post == Abs(r.st)  c == [k |-> r.k, a |-> 
          (IF C18(pre, c, r.res, post) THEN {} ELSE {"RemoveExact"})
     \cup (IF r.k \in {"remove", "vanish"} /\ pst.extra # r.st.extra THEN {"ExtraTouched"} ELSE {})
 
+(* C15: references handed out by the living store object stay valid and unchanged.  rbase = the  *)
+(* distinct mapping base addresses that fresh lookups of every offset yield (interned), rok = every *)
+(* held reference whose base is still current denotes unchanged bytes, nheld = references held.     *)
+V_C15(pst, r) ==
+         (IF Len(r.st.rbase) <= 1 THEN {} ELSE {"InconsistentBase"})
+    \cup (IF r.st.rok = 1 THEN {} ELSE {"BytesChanged"})
+    \cup (IF /\ r.k \notin {"reopen", "rebuild"} /\ pst.nheld > 0
+             /\ Len(pst.rbase) = 1 /\ Len(r.st.rbase) = 1 /\ pst.rbase # r.st.rbase
+          THEN (IF r.k \in {"store", "pstore"} /\ r.st.flen > pst.flen THEN {"MovedAtGrowth"}
+                ELSE {"MovedWithoutGrowth"})
+          ELSE {})
+
 (* queries recorded with the line (probe filters F): C17 path agreement, C12/C16 "every query" *)
 V_Q17(r) == IF \A i \in DOMAIN r.q : QueryOK(ToSet(r.st.retr), F[i], r.q[i]) THEN {} ELSE {"PathsAgree"}
 V_QSame(pst_q, r) == IF Len(pst_q) = Len(r.q) /\ QV(pst_q) = QV(r.q) THEN {} ELSE {"QueryChanged"}
@@ -104,6 +116,7 @@ Viol(pst, pq, r) ==
       [] Prop = "C16" -> V_C16(pst, r) \cup (IF r.k \in {"reopen", "rebuild"} THEN V_QSame(pq, r) ELSE {})
       [] Prop = "C17" -> V_C17(pst, r) \cup V_Q17(r)
       [] Prop = "C18" -> V_C18(pst, r)
+      [] Prop = "C15" -> V_C15(pst, r)
       [] Prop = "FRAME" -> LET pre == Abs(pst)  post == Abs(r.st)  c == [k |-> r.k, a |-> r.a] IN
                                IF Frame(pre, c, r.res, post) THEN {} ELSE {"Frame"}
       [] OTHER -> {}
